@@ -28,7 +28,8 @@ def main(argv=None) -> int:
     chk = Check(a.prop, a.tier, seed)
     try:
         if a.replay:
-            return mod.replay(chk, a.replay)
+            chk.write_evidence = False
+            return getattr(mod, 'replay_cmd', None)(chk, a.replay) if hasattr(mod, 'replay_cmd') else mod.replay(chk, a.replay)
         mod.run(chk)
         return chk.finish()
     except tlc.MachineryError as ex:
